@@ -1,13 +1,13 @@
 ---------------------------- MODULE MCAutoDerive ----------------------------
-(* Exhaustive evaluation of the as-built derive(Hash, Eq, Ord) decision on all type graphs over three structs A (two        *)
-(* members), B and C (one member each), members over {A, B, C} x {direct, Arc, btree map value} and the leaves f64 (direct, *)
-(* btree map value), i32 (direct, hash map value): 13^4 = 28 561 graphs, each in all six orders of the top-level calls.     *)
-(*  Theorem      with the complete type graph (fix 0004637) the decisions are the ideal ones in every order, and the emitted *)
-(*               derives compile, unless an f64 sits where the predicate does not look (Blind: the recorded finding);        *)
-(*               the decisions never depend on the order.                                                                   *)
-(*  Refutation   with the type graph as it was before the fix (no edges through Arc / btree) some graph in some order gets a *)
-(*               derive its members do not support (RefutedBeforeFix must be non-empty, else the model is vacuous).          *)
-(* Every graph is written with the predicted outcome and a signature; C14 compiles representatives of every signature.      *)
+(* Exhaustive evaluation of the as-built derive decisions (both instances of the plugin: Hash/Eq/Ord and PartialOrd) on all *)
+(* type graphs over three structs A (two members), B and C (one member each), members over {A, B, C} x {direct, Arc, btree   *)
+(* map value} and the leaves f64 (direct, btree map value), i32 (direct, hash map value): 13^4 = 28 561 graphs, each in all *)
+(* six orders of the top-level calls.                                                                                        *)
+(*  Theorem      the decisions are the ideal ones in every order, never depend on the order, and the emitted derives compile. *)
+(*  Refutations  (a) with the type graph as it was before fix 0004637 (no edges through Arc / btree) some graph in some order  *)
+(*               gets a derive its members do not support; (b) with the predicate as it was before fix 280118d (Vec peeled    *)
+(*               only) an f64 behind a btree map still derives.  Both sets must be non-empty, else the model is vacuous.      *)
+(* Every graph is written with the predicted outcome and a signature; C14 compiles representatives of every signature.       *)
 EXTENDS AutoDerive, Json, IOUtils, SequencesExt
 NodeVias == {"direct", "arc", "bmap"}
 NodeM == [to : {"A", "B", "C"}, via : NodeVias]
@@ -21,17 +21,21 @@ O1 == <<"A","B","C">>
 Kinds == {"heo", "po"}
 Thm(g) == \A K \in Kinds :
             /\ \A o \in Orders : AsBuilt(K, g, Fixed, o) = AsBuilt(K, g, Fixed, O1)
-            /\ (K = "heo" /\ Blind(g)) \/ (AsBuilt(K, g, Fixed, O1) = [n \in DOMAIN g |-> IdealDerive(K, g, n)] /\ Compiles(K, g, AsBuilt(K, g, Fixed, O1)))
-RefutedBeforeFix == {g \in Graphs : \E K \in Kinds : ~(K = "heo" /\ Blind(g)) /\ \E o \in Orders : ~Compiles(K, g, AsBuilt(K, g, PreFix, o))}
+            /\ AsBuilt(K, g, Fixed, O1) = [n \in DOMAIN g |-> IdealDerive(K, g, n)]
+            /\ Compiles(K, g, AsBuilt(K, g, Fixed, O1))
+RefutedBeforeFix == {g \in Graphs : \E K \in Kinds : \E o \in Orders : ~Compiles(K, g, AsBuilt(K, g, PreFix, o))}
+RefutedOldPredicate == {g \in Graphs : \E o \in Orders : ~Compiles("heo", g, AsBuilt("heo-old", g, Fixed, o))}
 
 OnCycle(g, x, m) == m.to \notin Leaves /\ x \in Reach(g, m.to)
 SigOf(g, d, e) == UNION {{<<d[x], e[x], g[x][i].via, IF g[x][i].to \in Leaves THEN g[x][i].to ELSE IF d[g[x][i].to] THEN "derives" ELSE IF e[g[x][i].to] THEN "po-only" ELSE "plain", OnCycle(g, x, g[x][i])>>
                         : i \in DOMAIN g[x]} : x \in DOMAIN g}
 Row(g) == LET d == AsBuilt("heo", g, Fixed, O1)
               e == AsBuilt("po", g, Fixed, O1)
-          IN [g |-> g, ok |-> Compiles("heo", g, d) /\ Compiles("po", g, e), blind |-> Blind(g), refuted_before_fix |-> g \in RefutedBeforeFix, sig |-> SetToSeq(SigOf(g, d, e))]
+          IN [g |-> g, ok |-> Compiles("heo", g, d) /\ Compiles("po", g, e), blind |-> Blind(g),
+              refuted_before_fix |-> g \in RefutedBeforeFix \/ g \in RefutedOldPredicate, sig |-> SetToSeq(SigOf(g, d, e))]
 ASSUME \A g \in Graphs : Thm(g) \/ Assert(FALSE, <<"as-built derive decision differs from the ideal one", g>>)
 ASSUME Assert(RefutedBeforeFix # {}, "the model cannot tell the type graph before fix 0004637 from the one after it")
-ASSUME PrintT(<<"graphs", Cardinality(Graphs), "refuted before the fix", Cardinality(RefutedBeforeFix)>>)
+ASSUME Assert(RefutedOldPredicate # {}, "the model cannot tell the predicate before fix 280118d from the one after it")
+ASSUME PrintT(<<"graphs", Cardinality(Graphs), "refuted with the old type graph", Cardinality(RefutedBeforeFix), "refuted with the old predicate", Cardinality(RefutedOldPredicate)>>)
 ASSUME ndJsonSerialize(IOEnv.VERIF_OUT, SetToSeq({Row(g) : g \in Graphs}))
 =============================================================================
